@@ -200,9 +200,12 @@ class Gen:
             then = [s for s in then if s["k"] != "read"] or [self.print_stmt()]
             if els is not None:
                 els = [s for s in els if s["k"] != "read"] or [self.print_stmt()]
-            if els is not None and then[-1]["k"] == "print" and then[-1]["items"] and then[-1]["items"][-1][0] != "e":
-                # known finding KF-C01-1: a PRINT ending in a separator directly before ELSE is a syntax error
-                then[-1]["items"].pop()
+            if els is not None and then[-1]["k"] == "print":
+                # known finding KF-C01-1: a PRINT that is bare or ends in a separator directly before ELSE is a syntax error
+                while then[-1]["items"] and then[-1]["items"][-1][0] != "e":
+                    then[-1]["items"].pop()
+                if not then[-1]["items"]:
+                    then[-1]["items"] = [("e", ("lit", "$", "x"))]
             return {"k": "ifline", "cond": self.cond(), "then": then, "else": els}
         if kind == "select":
             t = r.choice(["%", "%", "$", "!"]) if self.allow_fractions else r.choice(["%", "%", "$"])
